@@ -89,6 +89,10 @@ func projectRewrite(r *rules.NetworkRule) rwVal {
 func textsOf(rs []*rules.NetworkRule) []string {
 	out := []string{}
 	for _, r := range rs {
+		if r == nil {
+			out = append(out, "<nil>")
+			continue
+		}
 		out = append(out, r.RuleText)
 	}
 	return out
